@@ -366,8 +366,10 @@ def parseEvents (toks : List String) : Option (List Ev) :=
   toks.foldlM (fun acc t =>
     if t = "W" then some (acc ++ [Ev.wouldBlock])
     else if t = "I" then some (acc ++ [Ev.interrupted])
-    else if t = "O" then some (acc ++ [Ev.other])
-    else if t = "E" then some (acc ++ [Ev.eof])
+    -- `O`, `Oa`, `Ob`, …: any hard error (the suffix selects the concrete io::ErrorKind on the implementation side)
+    else if t.startsWith "O" then some (acc ++ [Ev.other])
+    -- `E` (Ok(0) / None), `Ee` (Err(UnexpectedEof)), `Ex` (UnexpectedEof with a payload): end of input for this attempt
+    else if t.startsWith "E" then some (acc ++ [Ev.eof])
     else (parseBytes t).map fun bs => acc ++ bs.map Ev.byte) []
 
 def parseCallChar : Char → Option Rdr.Call
